@@ -204,15 +204,94 @@ def harness_dir():
     return dst
 
 
-def build_harness():
-    d = harness_dir()
-    gs = os.path.join(d, "go.sum")
-    if not os.path.exists(gs) or os.path.getmtime(gs) < os.path.getmtime(os.path.join(REPO, "go.sum")):
-        shutil.copy(os.path.join(REPO, "go.sum"), gs)
+def _drive_defs():
+    """symbol -> drive file defining it (top-level funcs, types, vars, consts), by regex."""
+    defs = {}
+    ddir = os.path.join(ROOT, "harness", "drive")
+    for f in sorted(glob.glob(os.path.join(ddir, "*.go"))):
+        if f.endswith("_test.go"):
+            continue
+        txt = open(f).read()
+        for m in re.finditer(r"^func\s+(?:\([^)]*\)\s*)?([A-Za-z_]\w*)", txt, re.M):
+            defs.setdefault(m.group(1), os.path.basename(f))
+        for m in re.finditer(r"^type\s+([A-Za-z_]\w*)", txt, re.M):
+            defs.setdefault(m.group(1), os.path.basename(f))
+        for m in re.finditer(r"^(?:var|const)\s+([A-Za-z_]\w*)", txt, re.M):
+            defs.setdefault(m.group(1), os.path.basename(f))
+        for blk in re.finditer(r"^(?:var|const|type)\s*\((.*?)^\)", txt, re.M | re.S):
+            for m in re.finditer(r"^\s+([A-Za-z_]\w*)", blk.group(1), re.M):
+                defs.setdefault(m.group(1), os.path.basename(f))
+    return defs
+
+
+def build_harness(pid=None):
+    """Build the harness binary for ONE property from only the driver files it needs (closure over
+    undefined symbols) and only the hook tags it needs (verif, verif_cNN), so that a source change that
+    stops another property's driver or hook from compiling cannot disturb this check."""
+    src = os.path.join(ROOT, "harness")
     os.makedirs(BIN, exist_ok=True)
-    exe = os.path.join(BIN, "vh" if REPO == "/repo" else "vh-" + hashlib.sha1(REPO.encode()).hexdigest()[:8])
-    rc, o, dt = sh(["go", "build", "-tags", "verif", "-o", exe, "."], cwd=d, env=GOENV, timeout=1200)
-    return rc == 0, o, dt, exe
+    rtag = "" if REPO == "/repo" else "-" + hashlib.sha1(REPO.encode()).hexdigest()[:8]
+    if pid is None:   # monolithic build (setup): everything, all tags
+        d = harness_dir()
+        gs = os.path.join(d, "go.sum")
+        shutil.copy(os.path.join(REPO, "go.sum"), gs)
+        exe = os.path.join(BIN, "vh-all" + rtag)
+        rc, o, dt = sh(["go", "build", "-tags", "verif,verif_all", "-o", exe, "."], cwd=d, env=GOENV, timeout=1800)
+        return rc == 0, o, dt, exe
+    t0 = time.time()
+    d = os.path.join(WORK, "hb", pid + rtag)
+    os.makedirs(os.path.join(d, "drive"), exist_ok=True)
+    sh(["rsync", "-a", "--delete", "--exclude", "drive/", "--exclude", "go.sum", src + "/", d + "/"], check=True)
+    gm = open(os.path.join(d, "go.mod")).read().replace("=> /repo", "=> " + REPO)
+    open(os.path.join(d, "go.mod"), "w").write(gm)
+    shutil.copy(os.path.join(REPO, "go.sum"), os.path.join(d, "go.sum"))
+    ddir = os.path.join(src, "drive")
+    allfiles = sorted(os.path.basename(f) for f in glob.glob(os.path.join(ddir, "*.go")) if not f.endswith("_test.go"))
+    prop = load_prop(pid)
+    low = pid.lower()
+    files = set(["registry.go"] + [f for f in allfiles if f.startswith(low)] + prop.get("driver_files", []))
+    tags = set(["verif", "verif_" + low] + prop.get("hook_tags", []))
+    res_file = os.path.join(d, "resolved.json")
+    key = file_hash([os.path.join(ddir, f) for f in allfiles])
+    if os.path.exists(res_file):
+        r = json.load(open(res_file))
+        if r.get("key") == key:
+            files |= set(r["files"])
+            tags |= set(r["tags"])
+    defs = None
+    exe = os.path.join(BIN, "vh-" + pid + rtag)
+    out = ""
+    for _ in range(12):
+        for f in os.listdir(os.path.join(d, "drive")):
+            if f not in files:
+                os.remove(os.path.join(d, "drive", f))
+        for f in files:
+            if os.path.exists(os.path.join(ddir, f)):
+                shutil.copy(os.path.join(ddir, f), os.path.join(d, "drive", f))
+        rc, out, _ = sh(["go", "build", "-tags", ",".join(sorted(tags)), "-o", exe, "."], cwd=d, env=GOENV, timeout=1800)
+        if rc == 0:
+            write_json(res_file, {"key": key, "files": sorted(files), "tags": sorted(tags)})
+            return True, out, time.time() - t0, exe
+        grew = False
+        for m in re.finditer(r"undefined: (?:([A-Za-z_]\w*)\.)?([A-Za-z_]\w*)", out):
+            pkg, sym = m.group(1), m.group(2)
+            hm = re.match(r"Verif(C\d+)", sym)
+            if pkg and hm:
+                t = "verif_" + hm.group(1).lower()
+                if t not in tags:
+                    tags.add(t)
+                    grew = True
+                continue
+            if pkg:
+                continue
+            defs = defs or _drive_defs()
+            f = defs.get(sym)
+            if f and f not in files:
+                files.add(f)
+                grew = True
+        if not grew:
+            break
+    return False, out, time.time() - t0, exe
 
 
 def run_vh(exe, pid, args, outfile, timeout=1800):
@@ -352,7 +431,9 @@ def check_property(pid, tier, seed, n_override=None, replay=None):
         ok, o, dt = run_translator()
         timings["translate_s"] = round(dt, 1)
         if not ok:
-            broken.append(("translator", o[-2000:]))
+            mine = [l for l in o.splitlines() if re.search(r"translate: %s[^:]*\.json" % pid, l)]
+            if mine or "translate:" not in o:
+                broken.append(("translator", "\n".join(mine) or o[-2000:]))
         gate = grep_gate()
         if gate:
             broken.append(("forbidden-construct", "; ".join(gate)))
@@ -411,7 +492,7 @@ def check_property(pid, tier, seed, n_override=None, replay=None):
 
     # 3. harness
     with Lock("gobuild"):
-        hok, hout, hdt, exe = build_harness()
+        hok, hout, hdt, exe = build_harness(pid)
     timings["go_build_s"] = round(hdt, 1)
     cases, codes, eval_err = [], {}, None
     n = n_override or prop.get("%s_n" % tier, prop.get("quick_n", 200))
@@ -558,7 +639,8 @@ def check_property(pid, tier, seed, n_override=None, replay=None):
         "wall_s": round(time.time() - t_start, 1),
         "violations": len(viol) + (1 if (exit_code and not viol) else 0),
     }
-    write_json(evidence_path, ev)
+    if not replay:
+        write_json(evidence_path, ev)
     for l in lines:
         print(l)
     if exit_code == 0:
@@ -573,29 +655,31 @@ def check_property(pid, tier, seed, n_override=None, replay=None):
 
 # ---------------------------------------------------------------- setup / manifest
 def setup():
+    """Warm build of everything (translator, all Coq files, Go build cache). Individual checks rebuild
+    exactly what they need, so problems here are reported but only a missing toolchain is fatal."""
     os.makedirs(BIN, exist_ok=True)
+    rc_all = 0
     with Lock("build"):
         ok, o, _ = run_translator()
         if not ok:
-            log(o)
-            return 1
+            log("setup: translator reported problems:\n" + o[-3000:])
         gate = grep_gate()
         if gate:
-            log("forbidden constructs:", gate)
-            return 1
+            log("setup: forbidden constructs:", gate)
+            rc_all = 1
         ensure_makefile()
-        rc, o, dt = sh(["timeout", "3000", "make", "-j16"], cwd=COQ, timeout=3030)
-        log("coq make: rc=%d %.0fs" % (rc, dt))
+        rc, o, dt = sh(["timeout", "3300", "make", "-j16", "-k"], cwd=COQ, timeout=3330)
+        log("setup: coq make rc=%d %.0fs" % (rc, dt))
         if rc != 0:
             log(o[-4000:])
-            return 1
+            if not os.path.exists(os.path.join(COQ, "Lib", "Base.vo")):
+                rc_all = 1
     with Lock("gobuild"):
         hok, hout, hdt, exe = build_harness()
-        log("harness build: ok=%s %.0fs" % (hok, hdt))
+        log("setup: harness (all drivers) build ok=%s %.0fs" % (hok, hdt))
         if not hok:
             log(hout[-4000:])
-            return 1
-    return 0
+    return rc_all
 
 
 def manifest():
